@@ -26,6 +26,8 @@ var defaultExec = []string{
 	"github.com/protolambda/zrnt/eth2/util/merkle",
 	"github.com/protolambda/ztyp/tree",
 	"github.com/ethereum/go-ethereum/common",
+	"github.com/ethereum/go-ethereum/p2p/enode.LogDist",
+	"github.com/ethereum/go-ethereum/p2p/enode.DistCmp",
 }
 
 // Calls that are no-ops by default (logging, metrics, formatting for messages).
@@ -168,6 +170,9 @@ func (in *Interp) retType(fn *ssa.Function) types.Type {
 
 func (in *Interp) callFunction(fn *ssa.Function, args []Value, binds []Value, cc *ssa.CallCommon) Value {
 	names := in.matchNames(fn)
+	if in.lenient > 0 && fn.Synthetic == "package initializer" {
+		return nil
+	}
 	// 1. harness intrinsics and engine intrinsics
 	if fn.Pkg != nil || fn.Origin() != nil {
 		short := fn.Name()
